@@ -126,6 +126,7 @@ NICIRA = [("vendor_other_p%d" % k, (lambda k: lambda x: W.vendor(x, OTHER_VENDOR
   ("packet_in",      lambda x: S.packet_in(x, _pat(61, 2), in_port=3, buffer_id=7, reason=W.OFPR_ACTION)),
 ]
 ALPHA = {"controller": CTRL, "switch": SWITCH, "controller-nicira": NICIRA}
+SWEEP = {}
 
 
 # ---------------------------------------------------------------------------------------------------
@@ -240,7 +241,7 @@ def _sweep_switch ():
   T["queue_get_config_request"] = (lambda x: W.queue_get_config_request(x, 1), True)
   return T
 
-SWEEP = {"controller-types": _sweep_ctrl(), "switch-types": _sweep_switch()}
+SWEEP.update({"controller-types": _sweep_ctrl(), "switch-types": _sweep_switch()})
 SWEEP_BEFORE = {"controller-types": "echo_request", "switch-types": "echo_request"}       # 12 bytes
 SWEEP_AFTER = {"controller-types": "barrier_reply", "switch-types": "barrier_request"}    # 8 bytes
 for _s, _base in (("controller-types", CTRL), ("switch-types", SWITCH)):
@@ -275,6 +276,152 @@ def raise_sets (n, every_subset):
   out = [(i,) for i in range(n)]
   if n > 1: out.append(tuple(range(n)))
   return out
+
+# ---------------------------------------------------------------------------------------------------
+# stock handlers: what pox itself does with a delivered message is part of the read path
+# ---------------------------------------------------------------------------------------------------
+# Every harness above REPLACES the receiver's handler (recorder; recorder that raises).  A deployed connection runs
+# pox's own: of_01.DefaultOpenFlowHandlers after the handshake (events on the nexus, logging of ERROR / VENDOR
+# messages, echo replies, stats aggregation, port bookkeeping), SoftwareSwitch.rx_message on the switch (flow table,
+# packet-out processing, replies, error replies).  Both readers call them from inside their loop, between taking a
+# message off the buffer and trimming / re-examining it, and both evaluate str(msg) / msg.show() on the way (handlers
+# that log; Connection.read's own except block formats the message EAGERLY, so a handler failure on a message whose
+# pretty-printer fails too escapes read() before the buffer is trimmed).  What the stock handler does depends on the
+# message's VALUES, not only its type and length form.  So: `controller-stock` / `switch-stock` keep the stock handler
+# (the recorder records, then calls it), run with logging ENABLED at DEBUG into a formatting sink (pox's default
+# level; everything guarded by isEnabledFor / formatted lazily is evaluated), and sweep
+#   * every (type, length form) of the type sweep, and
+#   * the value domain of every field a stock handler or pretty-printer dispatches on: ERROR type x code over the whole
+#     named range, one past it and 0xffff (later revisions / real switches use codes OpenFlow 1.0 does not name);
+#     reasons of PACKET_IN / PORT_STATUS / FLOW_REMOVED incl. one past the named range; known / unknown / reserved
+#     ports; config flags; stats types incl. vendor, unknown and REPLY_MORE; on the switch side flow-mod commands incl.
+#     one past the named range, flags, buffered forms with an unknown buffer, packet-out to every reserved port, port-mod
+#     for known / unknown port and right / wrong hardware address, every stats request type, set-config flags
+# each alone before, and between, ordinary messages; with and without the (wrapped) handler of that delivery raising
+# after the stock handler returned.  Oracle unchanged: the wrapper's record is the delivery.
+def _eth_frame (n=60):
+  """A well-formed Ethernet / IPv4 / TCP frame (addresses of ports 1 -> 2), padded to n bytes."""
+  ip = struct.pack("!BBHHHBBH4s4s", 0x45, 0, 40, 1, 0, 64, 6, 0, bytes([10, 0, 0, 1]), bytes([10, 0, 0, 2]))
+  tcp = struct.pack("!HHLLBBHHH", 1234, 80, 1, 0, 0x50, 0x02, 8192, 0, 0)
+  f = b"\x02\0\0\0\0\x02" + b"\x02\0\0\0\0\x01" + b"\x08\x00" + ip + tcp
+  return f + b"\0" * (n - len(f))
+
+ERROR_CODES_NAMED = {0: 2, 1: 9, 2: 9, 3: 6, 4: 2, 5: 3}      # OpenFlow 1.0: number of named codes per error type
+ERROR_TYPES = (0, 1, 2, 3, 4, 5, 6, 0xffff)
+ERROR_CODES = tuple(range(0, 10)) + (0xffff,)               # 0..8 are named for some type; 9 and 0xffff for none
+_FLOW_MOD_REQ = W.flow_mod(0x77, _EXACT, W.OFPFC_ADD, _OUT, priority=5)     # 80 bytes; ERROR data carries >= 64 of them
+
+def _values_ctrl ():
+  T = {}
+  for t in ERROR_TYPES:
+    for c in ERROR_CODES:
+      T["error_t%d_c%d" % (t, c)] = ((lambda t, c: lambda x: S.error(x, t, c, _pat(8, 19)))(t, c), True)
+  T["error_hello_failed_text"] = (lambda x: S.error(x, W.OFPET_HELLO_FAILED, 0, b"Version unsupported"), True)
+  T["error_flow_mod_failed_request64"] = (lambda x: S.error(x, W.OFPET_FLOW_MOD_FAILED, 0, _FLOW_MOD_REQ[:64]), True)
+  T["error_bad_request_c9_request80"] = (lambda x: S.error(x, W.OFPET_BAD_REQUEST, 9, _FLOW_MOD_REQ), True)
+  for r in (0, 1, 2, 3):                      # ADD, DELETE, MODIFY, one past
+    for p in (1, 3, W.OFPP_LOCAL):            # port 1 is in the handshake's features reply, 3 is not
+      T["port_status_r%d_p%d" % (r, p)] = ((lambda r, p: lambda x: S.port_status(x, r, W.phy_port(p, b"\x02\0\0\0\0\x03", b"eth3", state=1, curr=0x82)))(r, p), True)
+  for r in (0, 1, 2):                         # NO_MATCH, ACTION, one past
+    for b in (W.NO_BUFFER, 7):
+      T["packet_in_r%d_%s" % (r, "unbuffered" if b == W.NO_BUFFER else "buffered")] = \
+        ((lambda r, b: lambda x: S.packet_in(x, _eth_frame(), in_port=1, buffer_id=b, reason=r))(r, b), True)
+  for r in (0, 1, 2, 3):                      # IDLE_TIMEOUT, HARD_TIMEOUT, DELETE, one past
+    T["flow_removed_r%d" % r] = ((lambda r: lambda x: S.flow_removed(x, _EXACT, cookie=5, priority=9, reason=r, duration_sec=3,
+                                  duration_nsec=4, idle_timeout=5, packet_count=6, byte_count=7))(r), True)
+  for f in (0, 1, 2, 3):
+    T["get_config_reply_flags%d" % f] = ((lambda f: lambda x: S.get_config_reply(x, f, 0xffff))(f), True)
+  fe = S.flow_stats_entry(_EXACT, _OUT, cookie=9, packet_count=1)
+  T["stats_reply_flow1_more"] = (lambda x: S.stats_reply(x, W.OFPST_FLOW, fe, flags=W.OFPSF_REPLY_MORE), True)
+  T["stats_reply_desc_more"] = (lambda x: S.stats_reply(x, W.OFPST_DESC, S.desc_stats_body(), flags=W.OFPSF_REPLY_MORE), True)
+  T["stats_reply_vendor_more"] = (lambda x: S.stats_reply(x, W.OFPST_VENDOR, struct.pack("!L", OTHER_VENDOR), flags=W.OFPSF_REPLY_MORE), True)
+  T["stats_reply_port1_more"] = (lambda x: S.stats_reply(x, W.OFPST_PORT, S.port_stats_entry(1), flags=W.OFPSF_REPLY_MORE), True)
+  T["vendor_nicira_role_reply"] = (lambda x: W.vendor(x, 0x2320, struct.pack("!LL", 11, 1)), True)
+  T["features_reply_caps_all"] = (lambda x: S.features_reply(x, 0xC02, [_PORT(1), _PORT(5)], n_buffers=256, n_tables=2,
+                                                             capabilities=0xff, actions=0xfff), True)
+  return T
+
+def _values_switch ():
+  T = {}
+  for cmd in (0, 1, 2, 3, 4, 5):              # ADD .. DELETE_STRICT, one past
+    for b in (W.NO_BUFFER, 5):                # no switch buffer holds id 5: the spec's BUFFER_UNKNOWN case
+      T["flow_mod_cmd%d_%s" % (cmd, "unbuffered" if b == W.NO_BUFFER else "buffer5")] = \
+        ((lambda cmd, b: lambda x: W.flow_mod(x, _EXACT, cmd, _OUT, priority=5, idle=6, hard=7, cookie=8, buffer_id=b))(cmd, b), True)
+  for fl in (1, 2, 3, 4, 7):                  # SEND_FLOW_REM, CHECK_OVERLAP, both, EMERG, all
+    T["flow_mod_add_flags%d" % fl] = ((lambda fl: lambda x: W.flow_mod(x, _EXACT, W.OFPFC_ADD, _OUT, priority=5, flags=fl))(fl), True)
+  T["flow_mod_delete_out_port2"] = (lambda x: W.flow_mod(x, _EXACT, W.OFPFC_DELETE, b"", out_port=2), True)
+  for port in (1, 2, 99, W.OFPP_IN_PORT, W.OFPP_TABLE, W.OFPP_NORMAL, W.OFPP_FLOOD, W.OFPP_ALL, W.OFPP_CONTROLLER,
+               W.OFPP_LOCAL, W.OFPP_NONE):
+    T["packet_out_to%d" % port] = ((lambda port: lambda x: W.packet_out(x, W.a_output(port, 0), _eth_frame(), in_port=1))(port), True)
+  T["packet_out_in_port_controller"] = (lambda x: W.packet_out(x, W.a_output(W.OFPP_FLOOD, 0), _eth_frame(), in_port=W.OFPP_CONTROLLER), True)
+  T["packet_out_allactions_frame"] = (lambda x: W.packet_out(x, _ALL_ACTIONS, _eth_frame(), in_port=1), True)
+  for p, hw in ((1, b"\x02\0\0\0\0\x01"), (1, b"\x02\0\0\0\0\x7f"), (99, b"\x02\0\0\0\0\x01"), (W.OFPP_LOCAL, b"\x02\0\0\0\0\x01")):
+    for cfg in (W.OFPPC_PORT_DOWN, W.OFPPC_NO_FLOOD, 0x7f):
+      T["port_mod_p%d_hw%02x_cfg%d" % (p, hw[-1], cfg)] = ((lambda p, hw, cfg: lambda x: W.port_mod(x, p, hw, cfg, cfg))(p, hw, cfg), True)
+  T["port_mod_p1_clear_all"] = (lambda x: W.port_mod(x, 1, b"\x02\0\0\0\0\x01", 0, 0x7f), True)
+  T["stats_request_flow_table0_out2"] = (lambda x: W.stats_request(x, W.OFPST_FLOW, W.flow_stats_body(_EXACT, table_id=0, out_port=2)), True)
+  T["stats_request_flow_allwild"] = (lambda x: W.stats_request(x, W.OFPST_FLOW, W.flow_stats_body(W.match())), True)
+  T["stats_request_aggregate_allwild"] = (lambda x: W.stats_request(x, W.OFPST_AGGREGATE, W.flow_stats_body(W.match())), True)
+  for p in (1, 99):
+    T["stats_request_port%d" % p] = ((lambda p: lambda x: W.stats_request(x, W.OFPST_PORT, W.port_stats_body(p)))(p), True)
+    T["stats_request_queue_port%d" % p] = ((lambda p: lambda x: W.stats_request(x, W.OFPST_QUEUE, W.queue_stats_body(p, 0)))(p), True)
+    T["queue_get_config_request_port%d" % p] = ((lambda p: lambda x: W.queue_get_config_request(x, p))(p), True)
+  T["stats_request_type6"] = (lambda x: W.stats_request(x, 6), True)          # one past the named range (BAD_STAT is owed)
+  for fl in (0, 1, 2, 3):
+    for ml in (0, 0xffff):
+      T["set_config_flags%d_len%d" % (fl, ml)] = ((lambda fl, ml: lambda x: W.set_config(x, fl, ml))(fl, ml), True)
+  T["vendor_nicira_role_request"] = (lambda x: W.vendor(x, 0x2320, struct.pack("!LL", 10, 1)), True)
+  return T
+
+def _stock_table (types, values):
+  T = dict(types)
+  for n, v in values.items():
+    if n in T: raise HarnessError("stock alphabet: duplicate form %s" % n)
+    T[n] = v
+  return T
+
+SWEEP["controller-stock"] = _stock_table(SWEEP["controller-types"], _values_ctrl())
+SWEEP["switch-stock"] = _stock_table(SWEEP["switch-types"], _values_switch())
+N_VALUE_FORMS = {"controller-stock": len(_values_ctrl()), "switch-stock": len(_values_switch())}
+for _s, _t in (("controller-stock", "controller-types"), ("switch-stock", "switch-types")):
+  SWEEP_BEFORE[_s] = SWEEP_BEFORE[_t]; SWEEP_AFTER[_s] = SWEEP_AFTER[_t]
+  ALPHA[_s] = [(n, f) for n, (f, strict) in SWEEP[_s].items()] + [(n, f) for n, f in ALPHA[_t] if n not in SWEEP[_s]]
+ALPHA["controller-task"] = ALPHA["controller-stock"]
+
+def stock_raise_sets (seq, deep):
+  """Which deliveries' (wrapped) handlers raise after the stock handler returned: none; the swept form's own delivery
+  (deep: each single delivery, and all of them)."""
+  n = len(seq)
+  if deep: return [()] + raise_sets(n, False)
+  return [(), (n - 2,)]
+
+
+class _Sink (__import__("logging").Handler):
+  """Formats every record's message (msg % args - where pox objects get stringified; the traceback text of
+  log.exception is the standard library's business and is not rendered) and throws the text away."""
+  def emit (self, record):
+    try: record.getMessage()
+    except Exception: pass
+  def handleError (self, record): pass
+
+class _Logging (object):
+  """Logging enabled at DEBUG into a formatting sink for the duration of a stock-handler case (mc.env.boot silences
+  logging for every other harness); previous configuration restored afterwards."""
+  def __init__ (self): self.on = False; self.sink = _Sink()
+  def __enter__ (self):
+    import logging
+    root = logging.getLogger()
+    self.saved = (root.manager.disable, root.level)
+    logging.disable(logging.NOTSET); root.setLevel(logging.DEBUG); root.addHandler(self.sink)
+    self.on = True
+  def __exit__ (self, *a):
+    import logging
+    root = logging.getLogger()
+    root.removeHandler(self.sink); root.setLevel(self.saved[1]); logging.disable(self.saved[0])
+    self.on = False
+
+_LOGGING = _Logging()
+
 SMALL_STREAM = 120          # streams up to this length get every 2-cut
 CHUNKS = list(range(1, 17)) + [2047, 2048, 2049]
 
@@ -289,6 +436,7 @@ def jumbo (side, n):
 
 
 def build (side, seq):
+  if side == "controller-handshake": return hs_build(seq)
   tab = dict(ALPHA[side])
   for name in seq:
     if name.startswith("jumbo_") and name not in tab: tab[name] = jumbo(side, int(name[6:]))
@@ -306,7 +454,15 @@ class Recorder (object):
     self.raise_at = ()          # deliveries (by index) whose handler raises after the message has been recorded
     self.raised = 0             # how many times it did
     self.excused = 0            # switch side: ERR_EXCEPTION reports to expect for them (never demanded)
-  def __call__ (self, con, msg):
+    self.stock = None           # stock handler to call after recording (the -stock harnesses), else None
+    self.stock_raised = 0       # how many times the stock handler itself raised an Exception
+    self.last_exc = None        # the exception the handler (stock or scripted) raised last
+    self.depth = 0              # > 0 while a stock handler runs (it may call handlers itself: deferred port status)
+  def __call__ (self, con, msg, stock=None):
+    stock = stock or self.stock
+    if self.depth:
+      # a handler invoked BY a stock handler (not by the reader): not a delivery of the reader's, passed through
+      return stock(con, msg) if stock is not None else None
     if len(self.log) >= self.limit:
       # of_01.Connection.read swallows whatever a handler raises (bare except) and carries on, so the way out of
       # its loop is its next unpacker lookup, which is not guarded; OFConnection.read lets a BaseException through.
@@ -316,9 +472,21 @@ class Recorder (object):
     try: packed = msg.pack()
     except Exception as e: packed = "pack raised %s: %s" % (type(e).__name__, e)
     self.log.append((getattr(msg, "header_type", None), getattr(msg, "xid", None), packed, type(msg).__name__))
-    if len(self.log) - 1 in self.raise_at:
+    i = len(self.log) - 1
+    if stock is not None:
+      self.depth += 1
+      try:
+        stock(con, msg)
+      except Exception as e:
+        # what pox's own handler does with the message (including failing) is not framing: the message was delivered
+        self.stock_raised += 1; self.excused += 1; self.last_exc = e
+        raise
+      finally:
+        self.depth -= 1
+    if i in self.raise_at:
       self.raised += 1; self.excused += 1
-      raise HandlerRaised("scripted handler failure at delivery %d" % (len(self.log) - 1))
+      self.last_exc = HandlerRaised("scripted handler failure at delivery %d" % i)
+      raise self.last_exc
 
 
 def _nicira (on):
@@ -336,6 +504,7 @@ class CtrlEnd (object):
   """Fresh nexus + real of_01.Connection, handshake driven over the wire, then recorder handlers."""
   side = "controller"
   nicira = False
+  stock = False
   def __init__ (self):
     from mc import env
     _nicira(self.nicira)
@@ -359,7 +528,16 @@ class CtrlEnd (object):
       lst[:] = [h for h in lst if getattr(h[1], "__self__", None) is not cs.nexus]
     self.cs, self.con, self.sock = cs, con, con.sock
     self.rec = Recorder()
-    con.handlers = [self.rec] * 256
+    if self.stock:
+      # the table the handshake installed (of_01._default_handlers.handlers) stays in charge: the recorder records,
+      # then calls the stock handler of the message's type
+      orig = list(con.handlers)
+      if con.handlers is not self.cs.of01._default_handlers.handlers:
+        raise HandshakeFailed("default-handlers-not-installed")
+      self.rec.stock = lambda c, m, orig=orig: orig[m.header_type](c, m)
+      con.handlers = [self.rec] * len(orig)
+    else:
+      con.handlers = [self.rec] * 256
     self.log = self.rec.log
     self.notes = []
     self.used = False
@@ -398,6 +576,7 @@ _SWSTACK = None
 
 class SwitchEnd (object):
   side = "switch"
+  stock = False
   def __init__ (self):
     global _SWSTACK
     from mc import env
@@ -422,15 +601,24 @@ class SwitchEnd (object):
     st.sock = self.sock
     st.worker = self.worker = RecocoIOWorker(self.sock)
     st.conn = self.conn = swmod.OFConnection(self.worker)
-    st.sw.set_connection(self.conn)
     self.rec = Recorder()
+    if self.stock:
+      # a fresh SoftwareSwitch of its own (what it does with the messages changes its state): 4 ports with known
+      # hardware addresses; its rx_message stays in charge, called by the recorder after recording
+      self.sw = swmod.SoftwareSwitch(0xC02, ports=0)
+      for n in range(1, 5): self.sw.add_port(self.sw.generate_port(n, ethaddr="02:00:00:00:00:%02x" % n))
+      self.sw.set_connection(self.conn)
+      self.rec.stock = self.conn.on_message_received
+      if self.rec.stock is None: raise HarnessError("SoftwareSwitch.set_connection installed no message handler")
+    else:
+      st.sw.set_connection(self.conn)
     self.conn.set_message_handler(self.rec)      # the switch's handler replaced by the recorder
     self.log = self.rec.log
     self.notes = []
     self.used = False
     orig = self.conn._error_handler
     def eh (reason, info):
-      if reason == 4 and self.rec.excused > 0 and isinstance(info[0], HandlerRaised):
+      if reason == 4 and self.rec.excused > 0 and (isinstance(info[0], HandlerRaised) or info[0] is self.rec.last_exc):
         self.rec.excused -= 1             # the scripted handler failure being reported: owed, not a framing event
       else:
         self.notes.append("error-handler-%s" % {1: "BAD_VERSION", 2: "NO_UNPACKER", 3: "BAD_LENGTH",
@@ -468,22 +656,26 @@ class TypesCtrlEnd (CtrlEnd): side = "controller-types"
 class TypesSwitchEnd (SwitchEnd): side = "switch-types"
 class RaisingCtrlEnd (CtrlEnd): side = "controller-raising"
 class RaisingSwitchEnd (SwitchEnd): side = "switch-raising"
+class StockCtrlEnd (CtrlEnd): side = "controller-stock"; stock = True
+class StockSwitchEnd (SwitchEnd): side = "switch-stock"; stock = True
 
 
 ENDS = {"controller": CtrlEnd, "switch": SwitchEnd, "controller-nicira": NiciraCtrlEnd,
         "controller-types": TypesCtrlEnd, "switch-types": TypesSwitchEnd,
-        "controller-raising": RaisingCtrlEnd, "switch-raising": RaisingSwitchEnd}
+        "controller-raising": RaisingCtrlEnd, "switch-raising": RaisingSwitchEnd,
+        "controller-stock": StockCtrlEnd, "switch-stock": StockSwitchEnd}
 
 
 def reusable (end):
   """A receiver may serve another case iff it is back in the state a fresh one is in, as far as the read path can
   see: reassembly buffer empty, nothing queued on the socket, open, recorder still installed.  The log is cleared."""
   if end is None or end.residual() or end.sock.rx or end.notes or end.rec.runaway or not end.open(): return False
+  if end.stock: return False        # the stock handlers have state of their own (ports, flow table, partial stats)
   if end.side.startswith("controller"):
     if any(h is not end.rec for h in end.con.handlers): return False
   elif end.conn.on_message_received is not end.rec: return False
   del end.log[:]
-  end.rec.raise_at = (); end.rec.raised = 0; end.rec.excused = 0
+  end.rec.raise_at = (); end.rec.raised = 0; end.rec.excused = 0; end.rec.depth = 0
   return True
 
 
@@ -523,6 +715,9 @@ def run_case (side, msgs, kind, arg, src="/repo", trace=None, end=None, loose=()
   """Returns (violation or None, profile, nreads, states).  violation = (key, what).
   end=None builds a fresh receiver; otherwise `end` must be a receiver for which reusable() holds.
   loose: positions compared by type and xid only; raises: deliveries whose (recording) handler raises."""
+  if side in STOCK_SIDES and not _LOGGING.on:
+    with _LOGGING:
+      return run_case(side, msgs, kind, arg, src, trace, end, loose, raises)
   n = len(msgs)
   stream = b"".join(msgs)
   ends = list(itertools.accumulate(len(m) for m in msgs))
@@ -540,7 +735,7 @@ def run_case (side, msgs, kind, arg, src="/repo", trace=None, end=None, loose=()
                  "not complete the handshake (%s)" % e), profile, nreads, states
   log = end.log
   end.rec.limit = n + 8
-  end.rec.raise_at = frozenset(raises); end.rec.raised = 0; end.rec.excused = 0
+  end.rec.raise_at = frozenset(raises); end.rec.raised = 0; end.rec.excused = 0; end.rec.depth = 0
   queued = 0
   for seg in segments(stream, kind, arg):
     it = end.feed(seg)
@@ -602,6 +797,9 @@ def run_case (side, msgs, kind, arg, src="/repo", trace=None, end=None, loose=()
       if not profile or profile[-1][1] != len(log): profile.append((fed, len(log)))
       states.add((fed, len(end.residual())))
   if fed != len(stream): raise HarnessError("fed %d of %d bytes" % (fed, len(stream)))
+  extra = end.final_note(msgs) if len(log) == n and hasattr(end, "final_note") else None
+  if extra:
+    return bad(extra[0], extra[1], extra[2]), profile, nreads, states
   if len(log) != n:
     return bad("undelivered", "at-end", "%d of %d messages delivered after the whole stream was received (residual buffer %d bytes)"
                % (len(log), n, len(end.residual()))), profile, nreads, states
@@ -911,6 +1109,330 @@ def run_live_case (seq, xids, kind, arg, src="/repo", trace=None):
   if not end.open() or end.con.connect_time is None:
     return bad("closed", "at-end", "connection closed / not up after a well-formed handshake and stream"), profile, nreads
   return None, profile, nreads
+
+
+# ---------------------------------------------------------------------------------------------------
+# controller, handshake with stock handlers: messages a switch sends WHILE the handshake is in progress
+# ---------------------------------------------------------------------------------------------------
+# controller-live writes down the handshake as hello, features reply, barrier reply.  A real switch also answers the
+# controller's description request (a 1068-byte stats reply, usually right behind the features reply), echoes, reports
+# port changes and packets whenever it likes.  While the handshake lasts the connection runs the per-connection
+# HandshakeOpenFlowHandlers table (defers port status, ignores most types), then swaps to the shared default table in
+# the middle of a read() - and the bytes behind the swap are dispatched through the new table.  Here BOTH tables stay
+# pox's own: every entry of the connection's handshake table is wrapped in place by the recorder, and the entries of
+# the (module-global, shared) default table are replaced once per process by shims that are transparent for every
+# connection but the case's own (which carries its recorder).  A handler called by a stock handler (the deferred port
+# status raised when the handshake completes) is passed through unrecorded: the reader did not deliver it.
+# Stream = hello, [A], features reply, [B], finish, [tail]: A, B = at most one message of HS_INTER in one of the slots
+# (thorough: one in each), finish = barrier reply / HP-style error with the controller's barrier xid.  Excluded: a
+# barrier reply with a foreign xid after the features reply (the controller drops the connection: not framing).
+STOCK_SIDES = ("controller-stock", "switch-stock", "controller-handshake")
+HS_DPID = 0xC02F
+HS_INTER = [
+  ("echo_request",      lambda x: W.echo_request(x, b"ping")),                                       # 12
+  ("hello_again",       lambda x: W.hello(x)),                                                       # 8
+  ("port_status",       lambda x: S.port_status(x, W.OFPPR_MODIFY, W.phy_port(2, b"\x02\0\0\0\0\x02", b"p2", state=1, curr=0x82))),  # 64
+  ("port_status_delete", lambda x: S.port_status(x, W.OFPPR_DELETE, W.phy_port(1, b"\x02\0\0\0\0\x01", b"p1"))),       # 64
+  ("packet_in",         lambda x: S.packet_in(x, _eth_frame(), in_port=1, buffer_id=7, reason=W.OFPR_NO_MATCH)),  # 78
+  ("error_foreign_xid", lambda x: S.error(x, W.OFPET_BAD_REQUEST, W.OFPBRC_BAD_TYPE, _pat(8, 20))),    # 20 (not the barrier's xid)
+  ("vendor",            lambda x: W.vendor(x, OTHER_VENDOR, _pat(4, 21))),                           # 16
+  ("desc_stats_reply",  lambda x: S.stats_reply(x, W.OFPST_DESC, S.desc_stats_body())),              # 1068: the answer to the controller's own request
+  ("barrier_reply_unasked", lambda x: S.barrier_reply(x)),                                           # 8; slot A only (no barrier outstanding yet)
+]
+HS_TAIL = [
+  ("error_unnamed_code", lambda x: S.error(x, W.OFPET_BAD_REQUEST, 9, _pat(8, 22))),                 # 20
+  ("port_status",        dict(HS_INTER)["port_status"]),
+]
+HS_FIXED = ("hello", "features_reply", "fin_barrier_reply", "fin_hp_error")
+_HS_XIDS = []
+
+def hs_xids ():
+  if not _HS_XIDS: _HS_XIDS.append(live_xids())
+  return _HS_XIDS[0]
+
+def hs_build (seq):
+  fx, bx = hs_xids()
+  tab = dict(HS_INTER); tail = dict(HS_TAIL)
+  out = []; fin = False
+  for i, n in enumerate(seq):
+    x = 0x0C02F000 + 0x101 * (i + 1)
+    if n == "hello": m = W.hello(1)
+    elif n == "features_reply": m = S.features_reply(fx, HS_DPID, [W.phy_port(1, b"\x02\0\0\0\0\x01", b"p1"), W.phy_port(2, b"\x02\0\0\0\0\x02", b"p2")])
+    elif n == "fin_barrier_reply": m = S.barrier_reply(bx); fin = True
+    elif n == "fin_hp_error": m = S.error(bx, W.OFPET_BAD_REQUEST, W.OFPBRC_BAD_TYPE, W.barrier_request(bx)); fin = True
+    else: m = (tail if fin else tab)[n](x)
+    out.append(m)
+  return out
+
+def hs_sequences (deep):
+  inter = [n for n, f in HS_INTER]
+  slots = [((), ())] + [((a,), ()) for a in inter] + [((), (b,)) for b in inter if b != "barrier_reply_unasked"]
+  if deep: slots += [((a,), (b,)) for a in inter for b in inter if b != "barrier_reply_unasked"]
+  for a, b in slots:
+    for fin in ("fin_barrier_reply", "fin_hp_error"):
+      for tail in [()] + ([(t,) for t, f in HS_TAIL] if fin == "fin_barrier_reply" or deep else []):
+        yield ("hello",) + a + ("features_reply",) + b + (fin,) + tail
+
+def hs_raise_sets (seq, deep):
+  """The (wrapped) handler of no delivery raises; of every delivery (deep: and of each single one)."""
+  n = len(seq)
+  return [(), tuple(range(n))] + ([(i,) for i in range(n)] if deep else [])
+
+def hs_cases (lens, deep, raising=False):
+  """One message per read, unsegmented, every 1-cut, the fixed read sizes; every 2-cut over {0, 4, 8 bytes into a
+  message, its last byte} (quick: only while no handler raises; deep: over P)."""
+  L = sum(lens)
+  yield ("cuts", tuple(itertools.accumulate(lens))[:-1])       # one message per read
+  yield ("cuts", ())
+  for p in range(1, L): yield ("cuts", (p,))
+  for k in CHUNKS:
+    if k < L: yield ("chunk", k)
+  if deep: P = interesting(lens)
+  elif raising: P = []
+  else:
+    P = set(); s = 0
+    for ln in lens:
+      P.update((s, s + 4, s + 8, s + ln - 1)); s += ln
+    P = sorted(p for p in P if 1 <= p <= L - 1)
+  for c in itertools.combinations(P, 2): yield ("cuts", c)
+
+
+def _shim_default_handlers (of01):
+  """Once per process: every entry of the shared default handler table is replaced IN PLACE by a shim that calls the
+  original directly unless the connection carries a recorder (`_c02_rec`), in which case the recorder records the
+  delivery and calls the original."""
+  tbl = of01._default_handlers.handlers
+  for k, h in enumerate(tbl):
+    if getattr(h, "_c02_shim", False): continue
+    def shim (con, msg, h=h):
+      rec = getattr(con, "_c02_rec", None)
+      if rec is None: return h(con, msg)
+      return rec(con, msg, stock=h)
+    shim._c02_shim = True
+    tbl[k] = shim
+
+
+class HsEnd (object):
+  """Fresh nexus, fresh real of_01.Connection in the handshake state; its handshake table and the default table keep
+  pox's handlers, each called through the recorder."""
+  side = "controller-handshake"
+  stock = True
+  def __init__ (self):
+    from mc import env
+    import pox.openflow.libopenflow_01 as of
+    of.generate_xid = of.xid_generator(1)
+    cs = env.ControllerStack()
+    for lst in cs.core._eventMixin_handlers.values():
+      lst[:] = [h for h in lst if getattr(h[1], "__self__", None) is not cs.nexus]
+    _shim_default_handlers(cs.of01)
+    i = cs.connect()
+    self.cs, self.con, self.sock = cs, cs.cons[i], cs.cons[i].sock
+    self.rec = Recorder()
+    self.con._c02_rec = self.rec
+    tbl = self.con.handlers
+    if tbl is cs.of01._default_handlers.handlers: raise HarnessError("fresh connection already has the default handler table")
+    for k, h in enumerate(tbl):
+      tbl[k] = (lambda h: lambda c, m: self.rec(c, m, stock=h))(h)
+    self.log = self.rec.log
+    self.notes = []
+    self.used = False
+
+  feed = CtrlEnd.feed
+  residual = CtrlEnd.residual
+  open = CtrlEnd.open
+
+ENDS["controller-handshake"] = HsEnd
+
+
+# ---------------------------------------------------------------------------------------------------
+# controller, task: Connection.read() called by pox's own OpenFlow_01_Task loop, a second connection readable too
+# ---------------------------------------------------------------------------------------------------
+# Everywhere above the harness calls Connection.read() itself.  In a running controller it is OpenFlow_01_Task.run
+# that does: a recoco task that yields Select(sockets) and, resumed with the readable ones, accepts new connections
+# on the listener and calls con.read() once per readable connection - closing a connection whose read() returns
+# False and closing it (and abandoning the rest of that wake-up's list) when read() raises.  Here the real run()
+# generator is driven the way the switch side drives RecocoIOLoop: the harness plays scheduler and select()
+# (level-triggered: a connection with bytes queued is reported readable at every wake-up), the `socket` module of
+# of_01 is a stand-in while the generator runs (listener whose accept() hands out scripted sockets).  Two switches
+# connect and handshake through the loop; both then receive the SAME segmented stream, both readable at the same
+# wake-ups (the bystander listed first).  The connection under test keeps the stock default handlers (recorder
+# records, then calls them; logging enabled), the bystander has plain recorders.  Oracle: the usual one for the
+# connection under test per wake-up; the bystander must have been delivered the same sequence by the end.
+TASK_SMALL = ("barrier_reply", "echo_request", "error_t1_c9", "packet_in")
+TASK_BIG = "packet_in_2500"
+TASK_IDLE_WAKEUPS = 3       # wake-ups in a row with bytes queued and none read before the harness gives up
+
+class _ListenSock (object):
+  def __init__ (self): self.pending = []; self.closed = False
+  def setsockopt (self, *a): pass
+  def bind (self, addr): pass
+  def listen (self, n): pass
+  def setblocking (self, b): pass
+  def fileno (self): return 70
+  def getpeername (self): return ("0.0.0.0", 6633)
+  def accept (self):
+    if not self.pending: raise BlockingIOError(errno.EAGAIN, "Resource temporarily unavailable")
+    k = self.pending.pop(0)
+    return k, k.name
+  def close (self): self.closed = True
+
+class _OfSockMod (object):
+  """Stands in for the `socket` module inside pox.openflow.of_01 while the task's generator runs."""
+  def __init__ (self):
+    import socket as _s
+    self.AF_INET, self.SOCK_STREAM, self.SOL_SOCKET, self.SO_REUSEADDR = _s.AF_INET, _s.SOCK_STREAM, _s.SOL_SOCKET, _s.SO_REUSEADDR
+    self.error = _s.error
+    self.listener = None
+  def socket (self, *a):
+    self.listener = _ListenSock(); return self.listener
+
+
+_TASKS = []
+
+def _shutdown_tasks ():
+  """End the run() generators of the TaskEnds made so far (a generator that is merely dropped is closed by the
+  collector, and the task's catch-all swallows the GeneratorExit)."""
+  while _TASKS: _TASKS.pop().shutdown()
+
+
+class TaskEnd (object):
+  side = "controller-task"
+  stock = True
+  def __init__ (self):
+    from mc import env
+    _shutdown_tasks()
+    _TASKS.append(self)
+    self.gen = None
+    cs = env.ControllerStack()
+    for lst in cs.core._eventMixin_handlers.values():
+      lst[:] = [h for h in lst if getattr(h[1], "__self__", None) is not cs.nexus]
+    self.cs = cs; of01 = self.of01 = cs.of01
+    _shim_default_handlers(of01)
+    self.mod = _OfSockMod()
+    self.notes = []
+    self.used = False
+    task = object.__new__(of01.OpenFlow_01_Task)        # Task.__init__ would register it with the core and scheduler
+    task.port, task.address, task.started = 6633, "0.0.0.0", True
+    task.ssl_key = task.ssl_cert = task.ssl_ca_cert = None
+    self.gen = task.run()
+    self.sel = None
+    self.step(first=True)
+    if self.sel is None or self.mod.listener is None: raise HarnessError("OpenFlow_01_Task.run did not reach its Select")
+    self.sockets = self.sel._args[0]
+    self.by, self.bysock = self.accept(2)
+    self.con, self.sock = self.accept(1)
+    for con, dpid in ((self.by, 0xC02B), (self.con, 0xC02A)): self.handshake(con, dpid)
+    self.byrec = Recorder(); self.byrec.limit = 1 << 30
+    self.by.handlers = [self.byrec] * 256
+    self.rec = Recorder()
+    orig = list(self.con.handlers)
+    self.rec.stock = lambda c, m, orig=orig: orig[m.header_type](c, m)
+    self.con.handlers = [self.rec] * len(orig)
+    self.log = self.rec.log
+
+  def step (self, r=(), first=False):
+    of01 = self.of01
+    saved = of01.socket
+    of01.socket = self.mod
+    try:
+      self.sel = next(self.gen) if first else self.gen.send((list(r), [], []))
+    except StopIteration:
+      if "task-ended" not in self.notes: self.notes.append("task-ended")
+    finally:
+      of01.socket = saved
+
+  def shutdown (self):
+    """Let run() leave its loops the way it does when the controller goes down: core.running False at a wake-up."""
+    gen, self.gen = self.gen, None
+    if gen is None: return
+    core = self.cs.core
+    core.running = False
+    of01 = self.of01; saved = of01.socket; of01.socket = self.mod
+    try:
+      for _ in range(4): gen.send(([], [], []))
+    except (StopIteration, TypeError): pass       # TypeError: send() on a generator that was never started
+    finally:
+      of01.socket = saved
+      core.running = True
+    gen.close()
+
+  def accept (self, n):
+    from mc import env
+    sock = env.ScriptSock(("switch", n))
+    self.mod.listener.pending.append(sock)
+    before = list(self.sockets)
+    self.step(r=[self.mod.listener])
+    new = [c for c in self.sockets if not any(c is b for b in before)]
+    if len(new) != 1 or getattr(new[0], "sock", None) is not sock: raise HandshakeFailed("task-did-not-accept")
+    self.cs.cons.append(new[0])
+    return new[0], sock
+
+  def pump (self, con, data):
+    con.sock.rx.append(data)
+    idle = 0
+    while con.sock.rx and idle < TASK_IDLE_WAKEUPS:
+      before = len(con.sock.rx)
+      self.step(r=[con])
+      idle = idle + 1 if len(con.sock.rx) == before else 0
+
+  def handshake (self, con, dpid):
+    self.pump(con, W.hello(1))
+    tx, _ = W.split(con.sock.tx); con.sock.tx = b""
+    fr = [m for m in tx if m[1] == W.FEATURES_REQUEST]
+    if not fr: raise HandshakeFailed("no-features-request-after-hello")
+    self.pump(con, S.features_reply(W.parse_hdr(fr[0])[3], dpid, [W.phy_port(1, b"\x02\0\0\0\0\x01", b"p1")]))
+    tx, _ = W.split(con.sock.tx); con.sock.tx = b""
+    br = [m for m in tx if m[1] == W.BARRIER_REQUEST]
+    if not br: raise HandshakeFailed("no-barrier-request-after-features-reply")
+    self.pump(con, S.barrier_reply(W.parse_hdr(br[0])[3]))
+    if con.connect_time is None or con.buf or con.handlers is not self.of01._default_handlers.handlers:
+      raise HandshakeFailed("not-up-after-barrier-reply")
+
+  def feed (self, seg):
+    """Both sockets now hold `seg`; one resumption of the task per wake-up, with every connection that still has
+    bytes queued (and that the task still watches) readable; yields the bytes the connection under test read."""
+    sock = self.sock
+    sock.rx.append(seg); self.bysock.rx.append(seg)
+    idle = 0
+    while sock.rx:
+      before = sum(len(c) for c in sock.rx)
+      ready = [c for c in (self.by, self.con) if c.sock.rx and any(c is x for x in self.sockets)]
+      self.step(r=ready)
+      got = before - sum(len(c) for c in sock.rx)
+      if not any(self.con is x for x in self.sockets) and "task-dropped-connection" not in self.notes:
+        self.notes.append("task-dropped-connection")
+      idle = idle + 1 if got == 0 else 0
+      if got or idle >= TASK_IDLE_WAKEUPS or self.notes:
+        if not got and not self.notes: self.notes.append("task-stopped-reading")
+        yield got
+        if not got: break
+    idle = 0
+    while self.bysock.rx and idle < TASK_IDLE_WAKEUPS and any(self.by is x for x in self.sockets):
+      before = sum(len(c) for c in self.bysock.rx)
+      self.step(r=[self.by])
+      idle = idle + 1 if before == sum(len(c) for c in self.bysock.rx) else 0
+
+  def residual (self): return bytes(self.con.buf)
+  def open (self): return not self.sock.closed and not self.con.disconnected and any(self.con is x for x in self.sockets)
+
+  def final_note (self, msgs):
+    """What the bystander (same stream, same wake-ups, plain recorders) ended up with."""
+    got = [e[2] for e in self.byrec.log]
+    if got != list(msgs):
+      return ("bystander", "delivered-sequence-differs", "the second connection, fed the same segments at the same wake-ups, was "
+              "delivered %d messages of %d (%s)" % (len(got), len(msgs), "a prefix" if got == list(msgs[:len(got)]) else "not a prefix"))
+    if self.by.buf or self.bysock.closed or self.by.disconnected or not any(self.by is x for x in self.sockets):
+      return ("bystander", "closed-or-residual", "the second connection ended closed / dropped by the task / with %d bytes buffered" % len(self.by.buf))
+    return None
+
+ENDS["controller-task"] = TaskEnd
+STOCK_SIDES = STOCK_SIDES + ("controller-task",)
+
+
+def task_sequences (deep):
+  for k in (1, 2, 3) if deep else (1, 2):
+    for seq in itertools.product(TASK_SMALL, repeat=k): yield seq
+  for seq in ((TASK_BIG,), (TASK_BIG, TASK_SMALL[0]), (TASK_SMALL[1], TASK_BIG)): yield seq
 
 
 def live_cases (lens):
@@ -1242,8 +1764,11 @@ def _worker (item):
   if side == "switch-reconnect": return _worker_reconnect(item)
   _guards()
   rep = Report(PID, "model_checking")
-  for r in (raise_sets(len(seq), threecuts) if side.endswith("-raising") else [()]):
+  for r in (raise_sets(len(seq), threecuts) if side.endswith("-raising") else
+            stock_raise_sets(seq, threecuts) if side.endswith("-stock") else
+            hs_raise_sets(seq, threecuts) if side == "controller-handshake" else [()]):
     _run_item(rep, side, seq, threecuts, src, r)
+  _shutdown_tasks()
   return rep
 
 
@@ -1252,13 +1777,14 @@ def _run_item (rep, side, seq, threecuts, src, raises):
   lens = [len(m) for m in msgs]
   for m in msgs:
     ver, typ, ln, xid = W.parse_hdr(m)
-    if (ver != 1 and not (typ == W.HELLO and side == "controller-types")) or ln != len(m):
+    if (ver != 1 and not (typ == W.HELLO and side in ("controller-types", "controller-stock"))) or ln != len(m):
       rep.error("alphabet message is not well-formed: %r" % (seq,)); return rep
   states = set()
   first = True
   end = None
   loose = loose_of(side, seq)
-  gen = sweep_cases if side.endswith("-types") else raising_cases if side.endswith("-raising") else cases_for
+  gen = (lambda l, d: hs_cases(l, d, bool(raises))) if side == "controller-handshake" else \
+        (lambda l, d: sweep_cases(l, d and not raises)) if side.endswith("-stock") else sweep_cases if side.endswith(("-types", "-stock", "-task")) else raising_cases if side.endswith("-raising") else cases_for
   for kind, arg in gen(lens, threecuts):
     # unsegmented, 1-cut and fixed-read-size cases: a fresh receiver each.  2-/3-cut cases: the work item's
     # receiver is reused while it is verifiably back in the initial framing state; a violation seen on a reused
@@ -1354,11 +1880,56 @@ def run (cfg):
                  raiselen, ", ".join("%s(%d)" % (n, len(f(1))) for n, f in ALPHA["controller-raising"]),
                  ", ".join("%s(%d)" % (n, len(f(1))) for n, f in ALPHA["switch-raising"]),
                  "" if cfg.quick else ", every 3-cut over the header-critical positions"))
+  rep.rule += (". controller-stock / switch-stock: the receiver keeps pox's OWN handler - of_01.DefaultOpenFlowHandlers as installed "
+              "by the completed handshake on a nexus whose listeners only record (ErrorIn.should_log untouched); a fresh "
+              "SoftwareSwitch (4 ports) with its rx_message - the recorder records each delivery, then calls the stock handler; "
+              "logging is ENABLED at DEBUG into a sink that formats every record. Forms: every form of the type sweep plus the "
+              "value sweep (controller %d forms: OFPT_ERROR for every type in %s x code in %s [named range per type %s, so every "
+              "named pair, one past each range, and 0xffff] with 8 data bytes, and with a text / a 64-byte / an 80-byte request "
+              "as data; PORT_STATUS reason 0..3 x port {1 known, 3 unknown, LOCAL}; PACKET_IN reason 0..2 x buffered/unbuffered "
+              "carrying a real Ethernet/IPv4/TCP frame; FLOW_REMOVED reason 0..3; GET_CONFIG_REPLY flags 0..3; stats replies "
+              "with REPLY_MORE for flow/desc/vendor/port; a Nicira vendor message without the Nicira component; a features "
+              "reply with every capability; switch %d forms: FLOW_MOD command 0..5 x {unbuffered, buffer_id 5 (unknown)}, "
+              "flags 1/2/3/4/7, DELETE with out_port; PACKET_OUT of a real frame to port 1, 2, 99 and every reserved port, from "
+              "in_port CONTROLLER, through every action type; PORT_MOD for port {1, 99, LOCAL} x {right, wrong hw address} x "
+              "config {PORT_DOWN, NO_FLOOD, all}; flow/aggregate stats requests with table 0 / out_port / all-wildcard match, "
+              "port / queue stats and queue config for port 1 and 99, stats type 6; SET_CONFIG flags 0..3 x miss_send_len "
+              "0/0xffff; a Nicira vendor request); each form X in the streams X+%s and %s+X+%s%s; for each stream the wrapped "
+              "handler of %s raises after the stock handler returned or does not; unsegmented, every 1-cut, the fixed read sizes, "
+              "every 2-cut over %s; a fresh receiver for every case; same oracle (the recorder's log is the delivery sequence; an "
+              "exception escaping the read path, duplicates after it, a closed connection are violations whatever caused them)"
+              % (N_VALUE_FORMS["controller-stock"], list(ERROR_TYPES), list(ERROR_CODES), ERROR_CODES_NAMED,
+                 N_VALUE_FORMS["switch-stock"], "barrier", "echo_request", "barrier", "" if cfg.quick else ", X+X",
+                 "X's delivery" if cfg.quick else "each single delivery / every delivery",
+                 "the header-critical positions" if cfg.quick else "the header-critical positions (while no handler raises: over P, all "
+                 "when L <= %d, and every 3-cut over the header-critical positions)" % SMALL_STREAM))
+  rep.rule += (". controller-handshake: a fresh real Connection in the handshake state with BOTH of pox's handler tables kept (the "
+              "connection's HandshakeOpenFlowHandlers table wrapped in place, the shared default table behind transparent shims; a "
+              "handler called by a stock handler - the deferred port status - is not counted as a delivery), logging enabled; stream "
+              "= hello, [A], features reply, [B], finish (%s), [tail]; at most one message of {%s} in slot A or slot B%s "
+              "(barrier_reply_unasked only in A), tail in {none, %s} (after the HP-style finish: none%s); one message per read, "
+              "unsegmented, every 1-cut, the fixed read sizes, every 2-cut over {0,4,8 bytes into a message, its last byte}%s; and "
+              "again with the wrapped handler of EVERY delivery raising after the stock handler returned (%s). controller-task: "
+              "read() is called by pox's own OpenFlow_01_Task.run generator, resumed by the harness once per select() wake-up "
+              "(level-triggered) with of_01's socket module a stand-in (scripted listener / accepted sockets); two switches connect "
+              "and handshake through the loop, then both receive the same stream in the same segments, both readable at the same "
+              "wake-ups (bystander first); connection under test keeps the stock default handlers, bystander has recorders; every "
+              "sequence of 1..%d of {%s} and %s alone / before / after a small message; unsegmented, every 1-cut, the fixed read "
+              "sizes, every 2-cut over the header-critical positions; oracle per wake-up as usual (the task dropping the "
+              "connection or no longer reading it = the receiver gave up), bystander delivered the same sequence by the end"
+              % (" / ".join(n for n in HS_FIXED[2:]), ", ".join("%s(%d)" % (n, len(f(1))) for n, f in HS_INTER),
+                 "" if cfg.quick else ", or one in each", ", ".join(n for n, f in HS_TAIL), "" if cfg.quick else " or any",
+                 "" if cfg.quick else " replaced by every 2-cut over P",
+                 "without the 2-cuts" if cfg.quick else "and of each single delivery",
+                 cfg.pick(2, 3), ", ".join(TASK_SMALL), TASK_BIG))
   rep.bound = dict(max_messages=maxlen, cuts="all 1-cuts; 2-cuts over P (all when L<=%d)%s; fixed read sizes"
                    % (SMALL_STREAM, "; 3-cuts over critical positions" if threecuts else ""),
                    alphabet=dict(controller=len(CTRL), switch=len(SWITCH)), live_tail_messages=livelen,
                    type_sweep_forms=dict(controller=len(SWEEP["controller-types"]), switch=len(SWEEP["switch-types"])),
                    raising_handler_max_messages=raiselen,
+                   stock_handler_forms=dict(controller=len(SWEEP["controller-stock"]), switch=len(SWEEP["switch-stock"])),
+                   handshake_interleaved_messages=cfg.pick(1, 2), task_max_messages=cfg.pick(2, 3),
+                   stock_handler_raise_sets="none + the swept form's delivery" if cfg.quick else "none + each single + all",
                    raising_handler_sets="single positions + all" if cfg.quick else "every non-empty subset")
   rep.assumptions = ["well-formed OpenFlow 1.0 messages only (malformed input is C10); well-formed includes the legal forms pox "
                      "never sends itself: a HELLO with a body, and on the controller side a HELLO of another version (admitted by "
@@ -1366,7 +1937,19 @@ def run (cfg):
                      "version negotiation, not framing, and is not exercised)",
                      "handlers are recorders: what a handler does with a delivered message is outside this property - except "
                      "that in the -raising harnesses the recorder raises an Exception after recording (a handler that closes "
-                     "the connection or re-enters read() is not modelled: the statement is silent on what follows a close)",
+                     "the connection or re-enters read() is not modelled: the statement is silent on what follows a close), and "
+                     "that in the -stock harnesses the recorder calls pox's own handler after recording: what that handler does "
+                     "(events, replies, error replies, log lines, raising an Exception that the reader swallows) is not judged, "
+                     "only what the READER then delivers",
+                     "controller-handshake: a barrier reply with a foreign xid after the features reply is excluded (the controller "
+                     "drops the connection by design); whether the handshake completes is not judged here (controller-live does)",
+                     "controller-task: select() is modelled level-triggered; the task is built without Task.__init__ (no scheduler) "
+                     "and ended by core.running = False at a wake-up; of_01.socket is rebound only while the generator runs",
+                     "-stock: nexus listeners only record (no ErrorIn listener clears should_log, none halts or raises); the "
+                     "controller's OpenFlow_01_Task loop is not in the picture (read() is called directly: an exception escaping "
+                     "read() is itself the violation); the switch's ERR_EXCEPTION report for a failing stock handler is expected, "
+                     "not demanded; values one past a named range (error codes, reasons, flow-mod command, stats type) are counted "
+                     "as well-formed: length and layout do not depend on them and later protocol revisions / real switches use them",
                      "switch-raising: the ERR_EXCEPTION report of OFConnection._error_handler for a scripted handler failure is "
                      "expected and not counted as the receiver giving up; whether it is made is not demanded",
                      "a complete message that is delivered only by a later read is not flagged as long as everything is delivered, "
@@ -1417,6 +2000,19 @@ def run (cfg):
     for name in SWEEP[side]:
       forms = [(name, a), (b, name, a)] + ([] if cfg.quick else [(name, name), (name, name, a)])
       for seq in forms: items.append((side, seq, threecuts, cfg.pox_src))
+  # stock handlers: every (type, length form) and every value form, alone before and between ordinary messages
+  for side in ("controller-stock", "switch-stock"):
+    if cfg.only and cfg.only != side: continue
+    b, a = SWEEP_BEFORE[side], SWEEP_AFTER[side]
+    for name in SWEEP[side]:
+      forms = [(name, a), (b, name, a)] + ([] if cfg.quick else [(name, name)])
+      for seq in forms: items.append((side, seq, threecuts, cfg.pox_src))
+  if not cfg.only or cfg.only == "controller-task":
+    for seq in task_sequences(not cfg.quick):
+      items.append(("controller-task", seq, threecuts, cfg.pox_src))
+  if not cfg.only or cfg.only == "controller-handshake":
+    for seq in hs_sequences(not cfg.quick):
+      items.append(("controller-handshake", seq, threecuts, cfg.pox_src))
   # raising handlers: every sequence over the three small messages, each raise set
   for side in ("controller-raising", "switch-raising"):
     if cfg.only and cfg.only != side: continue
@@ -1471,6 +2067,7 @@ def replay (cfg, data):
   raises = tuple(data.get("raises", ()))
   v, profile, nreads, st = run_case(side, msgs, kind, tuple(arg) if kind == "cuts" else arg, cfg.pox_src, trace=trace,
                                     loose=loose_of(side, seq), raises=raises)
+  _shutdown_tasks()
   lines = ["%s side, sequence %s (%d bytes)%s, %s %r" % (side, _seqtext(seq), sum(len(m) for m in msgs),
                                                         (", the handler of deliveries %s raises" % list(raises)) if raises else "", kind, arg)]
   lines += trace[:40] + (["... (%d reads)" % len(trace)] if len(trace) > 40 else [])
